@@ -56,7 +56,8 @@ impl ChannelQueue {
     assert!(capacity > 0, "ChannelQueue must be positive");
 
     Self {
-      queue: VecDeque::with_capacity(capacity),
+      // the buffer grows on demand up to `capacity`, only a small part is reserved up front
+      queue: VecDeque::with_capacity(capacity.min(64)),
       capacity,
       state: ChannelQueueState::Ready,
       kind: ChannelQueueKind::Buffered,
